@@ -375,6 +375,32 @@ func (c *Ctx) stringElems(v ssa.Value) ([]string, bool) {
 		if s.Value == nil {
 			return nil, true
 		}
+	case *ssa.UnOp:
+		// a package-level slice variable assigned once, in the package
+		// initialiser, from a literal
+		g, ok := s.X.(*ssa.Global)
+		if !ok || s.Op != token.MUL || g.Pkg == nil || !isSliceType(s.Type()) {
+			return nil, false
+		}
+		var stores []*ssa.Store
+		scan := func(f *ssa.Function) {
+			if f == nil {
+				return
+			}
+			allInstrs(f, func(in ssa.Instruction) {
+				if st, isSt := in.(*ssa.Store); isSt && st.Addr == ssa.Value(g) {
+					stores = append(stores, st)
+				}
+			})
+		}
+		scan(g.Pkg.Func("init"))
+		for _, f := range c.ModFns {
+			scan(f)
+		}
+		if len(stores) != 1 || stores[0].Parent() != g.Pkg.Func("init") {
+			return nil, false
+		}
+		return c.stringElems(stores[0].Val)
 	case *ssa.Slice:
 		if g, ok := s.X.(*ssa.Global); ok {
 			return c.globalStringArray(g)
